@@ -16,7 +16,7 @@ from .. import engine, common
 
 ID = "C03"
 
-DEPS = ["impl", "gi", "gw", "vg", "vi", "conc", "vconc", "nodeps"]
+DEPS = ["impl", "wimpl", "gi", "gw", "vg", "vi", "conc", "vconc", "nodeps"]
 QUALS = ["", "async", "unsafe", 'extern "C"', 'unsafe extern "C"', "async unsafe"]
 OPTS = ["", "mock", "mockall", "?Send"]
 # extra parameter symbols: (declaration, generic params, where predicates, argument expr, pointer type, needs)
@@ -28,6 +28,13 @@ EXTRA = {
     "tw": dict(decl="u: U", gen=["U"], where=["U: Bound + ::core::marker::Send"], arg="4i64", ptr="i64"),
     "cn": dict(decl="c: [u8; N]", gen=["const N: usize"], arg="[0u8; 2]", ptr="[u8; 2]"),
     "it": dict(decl="it: impl Bound + ::core::marker::Send", arg="5i64", ptr="i64"),
+    # other parameter types a signature can carry through unchanged
+    "dy": dict(decl="d: &(dyn Bound + ::core::marker::Sync)", arg="&3i64", ptr="&'b (dyn Bound + ::core::marker::Sync)", ref=True),
+    "fp": dict(decl="fp: fn(i64) -> i64", arg="fpid", ptr="fn(i64) -> i64"),
+    "cl": dict(decl="cl: impl Fn(i64) -> i64 + ::core::marker::Send", arg="fpid", ptr="fn(i64) -> i64"),
+    "bx": dict(decl="bx: ::std::boxed::Box<dyn Bound + ::core::marker::Send>", arg="::std::boxed::Box::new(3i64)", ptr="::std::boxed::Box<dyn Bound + ::core::marker::Send>"),
+    "sl": dict(decl="sl: &[u8]", arg="&[1u8, 2]", ptr="&'b [u8]", ref=True),
+    "tu": dict(decl="tu: (i64, &str)", arg="(1, \"s\")", ptr="(i64, &'b str)", ref=True),
     # two named lifetimes related by an outlives predicate: in the where clause / inline
     "lw": dict(decl="r: &'b X, r2: &'c X", lts=["'b", "'c"], where=["'c: 'b"], arg="&x, &x", ptr="&'b X, &'c X", ref=True, no_ptr=True),
     "li": dict(decl="r: &'b X, r2: &'c X", lts=["'b", "'c: 'b"], arg="&x, &x", ptr="&'b X, &'c X", ref=True, no_ptr=True),
@@ -60,7 +67,7 @@ def enumerate_states(tier):
     for deps, w, q, r, o, feature in itertools.product(DEPS, words, QUALS, RETS, OPTS, (False, True)):
         R = RETS[r]
         byval = deps in ("vg", "vi", "vconc")
-        if R.get("from_deps") and (byval or deps == "nodeps"):
+        if R.get("from_deps") and (byval or deps in ("nodeps", "wimpl")):
             continue
         if R.get("needs") and R["needs"] not in w:
             continue
@@ -74,7 +81,7 @@ def enumerate_states(tier):
             continue            # mock_api only switches unimock on with the crate feature; off it is covered by C04/C10
         if tier != "thorough" and feature and o in ("", "?Send") and q not in ("", "async"):
             continue
-        if tier != "thorough" and any(x in ("dp", "mb", "wl", "lw", "li") for x in w) and (o != "" or deps not in ("impl", "nodeps", "conc", "gi")):
+        if tier != "thorough" and any(x in ("dp", "mb", "wl", "lw", "li", "dy", "fp", "cl", "bx", "sl", "tu") for x in w) and (o != "" or deps not in ("impl", "nodeps", "conc", "gi")):
             continue            # the feature only matters through the mock options
         key = "g_%s_%s_%s_%s_%s_%s" % (deps, "_".join(w) or "0", {"": "s", "async": "a", "unsafe": "u", 'extern "C"': "e", 'unsafe extern "C"': "ue", "async unsafe": "au"}[q],
                                        r, {"": "p", "mock": "m", "mockall": "ma", "?Send": "ms"}[o], "fon" if feature else "foff")
@@ -91,6 +98,8 @@ def pieces(s):
     la = "'a " if named_a else ""
     if deps == "impl":
         dparam = "deps: &%simpl Dep" % la
+    elif deps == "wimpl":
+        dparam = "_: &impl Dep"        # the dependency is not used: wildcard pattern in the deps position
     elif deps == "gi":
         gens.append("D: Dep")
         dparam = "deps: &%sD" % la
@@ -128,7 +137,7 @@ def render(s):
     opts = ["pub Tr"] + (["no_deps"] if deps == "nodeps" else []) + \
         {"": [], "mock": ["mock_api = TrMock"], "mockall": ["mockall"], "?Send": ["?Send"]}[s["opt"]]
     L = ["mod %s {" % key, "    use super::rt;",
-         "    #[derive(Debug)] pub struct X(pub i64);",
+         "    #[derive(Debug)] pub struct X(pub i64);", "    pub fn fpid(x: i64) -> i64 { x }",
          "    pub trait Bound { fn b(&self) -> i64; } impl Bound for i64 { fn b(&self) -> i64 { *self } }",
          "    pub trait Dep { fn num(&self) -> &i64; }",
          "    pub struct App { pub num: i64 }",
